@@ -476,6 +476,8 @@ class process_cmake_parse_arguments_c:
         return (len(self.definition_command_stack) == len(old.self.definition_command_stack) and
                 forall(0, len(self.definition_command_stack) - 1,
                        lambda i: self.definition_command_stack[i].documentation is None or
+                       same(self.definition_command_stack[i].documentation,
+                            self.definition_command_stack[-1].documentation) or
                        self.definition_command_stack[i].documentation.has_kwargs ==
                        old.self.definition_command_stack[i].documentation.has_kwargs))
     modifies = ["self.definition_command_stack[-1].documentation.has_kwargs "
